@@ -27,11 +27,11 @@ from .base import standard_run, Stop
 
 MACHINE = 'adapt'
 CUSTOMS = ['none', 'ret_none', 'ret_val', 'raise', 'super']
-CONFORMS = ['absent', 'none', 'value', 'raises', 'typeerror', 'attr_attrerror', 'attr_raises', 'unbound']
-HOOKS = ['none', 'value', 'raise', 'pop_last', 'clear', 'append', 'remove_self']
+CONFORMS = ['absent', 'none', 'value', 'raises', 'raises_attrerror', 'typeerror', 'attr_attrerror', 'attr_raises', 'unbound']
+HOOKS = ['none', 'value', 'raise', 'pop_last', 'clear', 'append', 'remove_self', 'reenter']
 BLOCK = 1600
-ENUM_NOTE = ('complete product {custom __adapt__: 5} x {__conform__: 8} x {provided: 2} x {hook lists of length 0-3 over 7 hook '
-             'behaviours: 400} x {alternate: 2}, plus the sub-interface and registry-hook variants over the smaller hook alphabet; '
+ENUM_NOTE = ('complete product {custom __adapt__: 5} x {__conform__: 9} x {provided: 2} x {hook lists of length 0-3 over 8 hook '
+             'behaviours: 585} x {alternate: 2}, plus the sub-interface and registry-hook variants over the smaller hook alphabet; '
              'everything outside that product is sampled')
 
 
@@ -155,6 +155,8 @@ def execute(program, ctx, mode):
                     return CONF_VAL
                 if conform == 'raises':
                     raise E1('conform')
+                if conform == 'raises_attrerror':
+                    raise AttributeError('inside the __conform__ body')
                 if conform == 'typeerror':
                     raise TypeError('inner')
             ns['__conform__'] = c
@@ -167,9 +169,19 @@ def execute(program, ctx, mode):
             directlyProvides(ob, I)
         return ob
 
+    cur = {'I': None, 'ob': None, 'depth': 0}
+
+    class INested(Interface):
+        pass
+    nested_ob = type('NestedOb', (object,), {})()
+
+    def tags(iface, ob):
+        return '%s:%s' % ('I' if iface is cur['I'] else ('N' if iface is INested else '?'),
+                          'OBJ' if ob is cur['ob'] else ('NOB' if ob is nested_ob else '?'))
+
     def mk_hook(kind, n, lst):
         def h(iface, ob):
-            calls.append('hook:%s' % h.label)
+            calls.append('hook:%s:%s' % (h.label, tags(iface, ob)))
             if kind == 'value':
                 return hook_vals.setdefault(h.label, object())
             if kind == 'raise':
@@ -184,6 +196,13 @@ def execute(program, ctx, mode):
             elif kind == 'remove_self':
                 if h in adapter_hooks:
                     adapter_hooks.remove(h)
+            elif kind == 'reenter' and cur['depth'] == 0:
+                # a hook that itself adapts something else (a miss) while the outer adaptation is in progress
+                cur['depth'] = 1
+                try:
+                    INested(nested_ob, None)
+                finally:
+                    cur['depth'] = 0
             return None
         h.label = '%s%s' % (kind, n)
         h.kind = kind
@@ -206,26 +225,28 @@ def execute(program, ctx, mode):
                 return ('ret', CONF_VAL), log
             if conform == 'raises':
                 return ('raise', 'E1'), log
+            if conform == 'raises_attrerror':
+                return ('raise', 'AttributeError'), log
             if conform == 'typeerror':
                 return ('raise', 'TypeError:inner'), log
+        lst = list(hooks)
 
-        def default_adapt():
-            if case['provided']:
-                return ('ret', ob)
-            lst = list(hooks)
+        def walk(depth):
+            tg = 'I:OBJ' if depth == 0 else 'N:NOB'
             i = 0
             while i < len(lst):
                 h = lst[i]
                 i += 1
                 if getattr(h, 'is_reg', False):
-                    log.append('reghook')
-                    if h.kind == 'hit':
-                        log.append('factory')
-                        return ('ret', REG_VAL)
-                    if h.kind == 'factory_none':
-                        log.append('factory')
+                    log.append('reghook:' + tg)
+                    if depth == 0:
+                        if h.kind == 'hit':
+                            log.append('factory')
+                            return ('ret', REG_VAL)
+                        if h.kind == 'factory_none':
+                            log.append('factory')
                     continue
-                log.append('hook:%s' % h.label)
+                log.append('hook:%s:%s' % (h.label, tg))
                 k = h.kind
                 if k == 'value':
                     return ('ret', hook_vals.setdefault(h.label, object()))
@@ -243,7 +264,16 @@ def execute(program, ctx, mode):
                     if h in lst:
                         j = lst.index(h)
                         del lst[j]
+                elif k == 'reenter' and depth == 0:
+                    r = walk(1)
+                    if r is not None and r[0] == 'raise':
+                        return r
             return None
+
+        def default_adapt():
+            if case['provided']:
+                return ('ret', ob)
+            return walk(0)
         custom = case['custom']
         if custom == 'none':
             r = default_adapt()
@@ -286,7 +316,7 @@ def execute(program, ctx, mode):
             return None
 
         def __call__(self, iface, ob):
-            calls.append('reghook')
+            calls.append('reghook:' + tags(iface, ob))
             return self.reg.adapter_hook(iface, ob)
 
     try:
@@ -303,6 +333,7 @@ def execute(program, ctx, mode):
                 rh = RegHook(kind, I)
                 hooks.insert(min(pos, len(hooks)), rh)
             adapter_hooks[:] = hooks
+            cur['I'], cur['ob'], cur['depth'] = I, ob, 0
             exp, elog = model(case, ob, I, hooks)
             del calls[:]
             try:
@@ -343,7 +374,7 @@ def execute(program, ctx, mode):
                 def cat(x):
                     v = show(x)[1] if x[0] == 'ret' else x[1]
                     return v.split(':')[0] if v.startswith('HOOK') else v
-                mut = any(k in ('pop_last', 'clear', 'append', 'remove_self') for k in case['hooks'])
+                mut = any(k in ('pop_last', 'clear', 'append', 'remove_self', 'reenter') for k in case['hooks'])
                 ctx.violation('C14', 'outcome', 'C14|outcome|%s-instead-of-%s%s' % (cat(got), cat(exp), '|hook-list-mutated-by-hook' if mut else ''),
                               {'case': case, 'got': show(got), 'want': show(exp), 'calls': list(calls)})
             elif list(calls) != elog:
